@@ -375,3 +375,7 @@ Proof.
   assert (H2 : nth j wd 0 = nth j wd 0 * (1 / cv) * cv) by (field; assumption).
   rewrite H2, H1. ring.
 Qed.
+
+(* ComponentProjection(P, [0, 0]) on ProductSpace(rn(1), rn(1)): the adjoint assigns instead of accumulating *)
+Lemma projm_repeated_refuted : identity_fails (LProjM [[1]; [1]] [1; 1] [0%nat; 0%nat]).
+Proof. witness [1; 0] [1; 0]. Qed.
